@@ -109,10 +109,17 @@ def run_impl(case, work):
     # the SAME base name (rank0/trace.json, rank1/trace.json: the usual multi-rank layout), or two different files
     # whose paths share a 4-digit job id (crc32(path) % 10000)
     nev = sum(len(t) for f in case for t in f["tokens"])
-    layout = ("flat", "dirs", "collide", "flat")[nev % 4]
+    layout = ("flat", "dirs", "collide", "flat", "odd_names", "dirs", "odd_names", "flat")[nev % 8]
+    # file and directory names are data too: a JSON input is a JSON input whatever else its path contains (other known
+    # extensions as substrings, several dots, upper case; blanks and commas separate the entries of -i)
+    odd = ["aiu.login1.rank{i}.json", "run.logs/r{i}.json", "x.logits.{i}.json", "trace.pftrace.bak/f{i}.json",
+           "job-7/rank_{i}.json", "A.JSON.d/f{i}.json", "f{i}.log.json", "r{i}.json.json"]        # (no blanks: -i splits on them)
     for i, f in enumerate(case):
         p = os.path.join(work, f"f{i}.json")
-        if layout == "dirs":
+        if layout == "odd_names":
+            p = os.path.join(work, odd[(nev // 8 + i) % len(odd)].format(i=i))
+            os.makedirs(os.path.dirname(p), exist_ok=True)
+        elif layout == "dirs":
             os.makedirs(os.path.join(work, f"rank{i}"), exist_ok=True)
             p = os.path.join(work, f"rank{i}", "trace.json")
         elif layout == "collide" and i == 1:
